@@ -278,6 +278,10 @@ def r12(ctx: Ctx) -> RuleReport:
                         if _is_model_source(ctx, fi, call):
                             rep.ok(key, fi.loc(call), 'creates the session model')
                             break
+                        from ..resolve import ctor_param_unused
+                        if t.kind == 'class' and ctor_param_unused(ctx, fi, call, t.cls, 'model'):
+                            rep.add(key, fi.loc(call), 'info', 'no model is passed, but no method called on the new object consults its model')
+                            break
                         rep.violation(key, fi.loc(call),
                                       f'{callee.fq} takes a model but this call passes none'
                                       + (f' (**{star[0]} carries sort-key flags only)' if star else '')
@@ -746,4 +750,128 @@ def r72(ctx: Ctx) -> RuleReport:
                     f'model than the library does for the same file' if missing else '')
     if not seen:
         rep.undecided('penman.__main__:_get_model: the model file is loaded into Model(**...)', fi.loc())
+    return rep
+
+
+# ---------------------------------------------------------------------------------------------
+@rule('R82', '--check records every offending triple under its own metadata key (the key counter moves between two triples)')
+def r82(ctx: Ctx) -> RuleReport:
+    rep = RuleReport('R82', r82.title, floor=1)
+    fi = ctx.repo.func('penman.__main__', '_check')
+    cfg = CFG(fi.node)
+    pm = ctx.repo.parent_map(fi.node)
+    stores = [nd for nd in cfg.nodes if nd.kind == 'stmt' and isinstance(nd.ast, ast.Assign) and isinstance(nd.ast.targets[0], ast.Subscript)
+              and norm(nd.ast.targets[0].value).endswith('.metadata')]
+    if not stores:
+        rep.undecided(f'{fi.fq}: an error is recorded with g.metadata[<key>] = <text>', fi.loc(), 'no store into .metadata')
+        return rep
+    errs = [nm for nm, vals in ctx.cg.local_assigns(fi).items()
+            if any(isinstance(v, ast.Call) and isinstance(v.func, ast.Attribute) and v.func.attr == 'errors' for v in vals if isinstance(v, ast.AST))]
+
+    def enum_binds(for_node: ast.For, name: str) -> bool:
+        it = for_node.iter
+        return isinstance(it, ast.Call) and isinstance(it.func, ast.Name) and it.func.id == 'enumerate' and isinstance(for_node.target, ast.Tuple) \
+            and for_node.target.elts and isinstance(for_node.target.elts[0], ast.Name) and for_node.target.elts[0].id == name
+
+    for st in stores:
+        keyx = st.ast.targets[0].slice
+        names = sorted({x.id for x in ast.walk(keyx) if isinstance(x, ast.Name)})
+        key = f'{fi.fq}: {norm(st.ast.targets[0])[:50]} is a fresh key for every offending triple'
+        # the loop over the entries of the report that encloses the store
+        outer = None
+        cur = st.ast
+        while id(cur) in pm:
+            cur = pm[id(cur)]
+            if isinstance(cur, ast.For) and any(isinstance(x, ast.Name) and x.id in errs for x in ast.walk(cur.iter)):
+                outer = cur
+        if outer is None:
+            rep.undecided(key, fi.loc(st.ast), 'the store is not inside a loop over the entries of model.errors(g)')
+            continue
+        if not names:
+            rep.violation(key, fi.loc(st.ast), f'the key {norm(keyx)} is the same for every triple: each entry overwrites the one before')
+            continue
+        ohead = cfg.node_of(outer)
+        verdicts = []
+        for cnt in names:
+            if enum_binds(outer, cnt):
+                verdicts.append(None)
+                continue
+            seen, stack, hit = set(), [(st.id, [])], None
+            first = True
+            while stack:
+                n, path = stack.pop()
+                if n in seen and not first:
+                    continue
+                first = False
+                seen.add(n)
+                node = cfg.nodes[n]
+                if n == ohead and path:
+                    hit = path
+                    break
+                if node.kind == 'stmt' and n != st.id and isinstance(node.ast, (ast.AugAssign, ast.Assign)) and cnt in assigned_names(node.ast):
+                    continue                                   # the counter is re-bound: a new key from here on
+                for m, lab in cfg.succ[n]:
+                    if lab == 'exc' or m in (cfg.rexit,):
+                        continue
+                    if node.kind == 'for' and lab == 'T' and enum_binds(node.ast, cnt):
+                        continue                               # next element of enumerate(): the counter moved
+                    stack.append((m, path + [n]))
+            verdicts.append(hit)
+        if any(v is None for v in verdicts):
+            rep.ok(key, fi.loc(st.ast), f'counter(s) {names}')
+        else:
+            hit = verdicts[0]
+            rep.violation(key, fi.loc(st.ast), f'after the store the loop over the report can start its next entry without `{names[0]}` having moved '
+                          f'({" -> ".join(repr(cfg.nodes[x]) for x in hit[-4:])[:160]}): two offending triples are written under the same key and the earlier one is lost')
+    return rep
+
+
+# ---------------------------------------------------------------------------------------------
+@rule('R87', 'the option tables built once in main() (normalize_options, format_options and what is unpacked from them) are only read while the graphs are processed')
+def r87(ctx: Ctx) -> RuleReport:
+    from ..cfg import mutated_bases
+    rep = RuleReport('R87', r87.title, floor=1)
+    m = ctx.repo.module('penman.__main__')
+    shared_params = {'normalize_options', 'format_options'}
+    for fi in m.all_funcs:
+        held = {p for p in fi.params if p in shared_params}
+        if not held:
+            continue
+        # names derived from the tables: x = T[...], a, b = T[...], x = T.get(...), for k, v in T.items()
+        derived: Dict[str, str] = {p: p for p in held}
+        changed = True
+        while changed:
+            changed = False
+            for n in walk_local(fi.node):
+                tg = val = None
+                if isinstance(n, ast.Assign) and len(n.targets) == 1:
+                    tg, val = n.targets[0], n.value
+                elif isinstance(n, (ast.For, ast.comprehension)):
+                    tg, val = n.target, n.iter
+                if tg is None:
+                    continue
+                root = val
+                while isinstance(root, (ast.Subscript, ast.Attribute, ast.Call)):
+                    root = root.func.value if isinstance(root, ast.Call) and isinstance(root.func, ast.Attribute) else (root.value if not isinstance(root, ast.Call) else None)
+                    if root is None:
+                        break
+                if isinstance(root, ast.Name) and root.id in derived and not (isinstance(val, ast.Call) and isinstance(val.func, ast.Name) and val.func.id in ('dict', 'list', 'deepcopy', 'copy')):
+                    if isinstance(val, ast.Call) and isinstance(val.func, ast.Attribute) and val.func.attr in ('copy',):
+                        continue
+                    for x in ast.walk(tg):
+                        if isinstance(x, ast.Name) and x.id not in derived:
+                            derived[x.id] = f'{derived[root.id]} -> {x.id}'
+                            changed = True
+        bad = []
+        for st in walk_local(fi.node):
+            if isinstance(st, ast.stmt) and not isinstance(st, (ast.If, ast.For, ast.While, ast.Try, ast.With, ast.FunctionDef)):
+                for b in mutated_bases(st) & set(derived):
+                    bad.append((st, b))
+        key = f'{fi.fq}: {sorted(held)} and what is taken out of them are only read'
+        if bad:
+            st, b = bad[0]
+            rep.violation(key, fi.loc(st), f'`{norm(st)[:70]}` changes `{b}` ({derived[b]}): the tables are built once per run and shared by every graph, so the first graph is processed '
+                          f'with the option and the following ones without it (or with the changed value)')
+        else:
+            rep.ok(key, fi.loc(), f'names followed: {sorted(derived)}')
     return rep
